@@ -113,6 +113,12 @@ func init() {
 		in.e.Assert(And(Eq(x.len, y.len), Not(differ)), label, site)
 		return nil
 	})
+	reg(vapiPkg+"Or", func(in *Interp, fr *frame, fn *ssa.Function, a []Value, site string) Value {
+		return Or(a[0].(*Term), a[1].(*Term))
+	})
+	reg(vapiPkg+"And", func(in *Interp, fr *frame, fn *ssa.Function, a []Value, site string) Value {
+		return And(a[0].(*Term), a[1].(*Term))
+	})
 	reg(vapiPkg+"Min", func(in *Interp, fr *frame, fn *ssa.Function, a []Value, site string) Value {
 		return Min(a[0].(*Term), a[1].(*Term), true)
 	})
